@@ -58,6 +58,12 @@ func c01(c *ctx) {
 			g = gram.Random(r, prof)
 		}
 		cs := &gcase{id: i, g: g}
+		if i%5 == 2 {
+			// the ends of the code space are ordinary characters: '.', negated classes and lookahead must treat
+			// U+0000 and U+10FFFF like any other rune (the generated parser marks end of input with a sentinel rune)
+			alpha = append(append([]rune(nil), alpha...), 0, 0x10FFFF, 0x10FFFF, 0xFFFD)
+			c.run.Count("cases_with_extreme_runes_in_inputs", 1)
+		}
 		cs.entries = entriesFor(r, g, 14, true, 5, alpha)
 		cases = append(cases, cs)
 	}
